@@ -131,7 +131,7 @@ class Enc:
     """encoding options; canonical=True gives the compact canonical encoding"""
 
     def __init__(self, rng, canonical=False, junk=True, indexed=True, list_kinds=('lo', 'la', 'reg'),
-                 opt_kinds=('ixo', 'bym', 'bim', 'unm'), widths=WIDTHS, weird_empty=0.0):
+                 opt_kinds=('ixo', 'bym', 'bim', 'unm'), widths=WIDTHS, weird_empty=0.0, special=True):
         self.rng = rng
         self.canonical = canonical
         self.junk = junk and not canonical
@@ -140,6 +140,7 @@ class Enc:
         self.opt_kinds = opt_kinds
         self.widths = widths
         self.weird_empty = weird_empty
+        self.special = special
         self.stats = {}
 
     def count(self, k):
@@ -150,7 +151,7 @@ def junkvals(enc, t, nmax=2):
     if not enc.junk:
         return []
     n = enc.rng.choice([0, 0, 1, nmax])
-    return [gen_value(enc.rng, t_noopt_none(t), 3) for _ in range(n)]
+    return [gen_value(enc.rng, t_noopt_none(t), 3, enc.special) for _ in range(n)]
 
 
 def t_noopt_none(t):
@@ -324,7 +325,7 @@ def encode_opt(enc, it, vals):
                 index.append(pos[i])
         return ['ixo', w, index, encode(enc, it, stored, True)]
     # masked: content has a (junk) value at every position
-    full = [v if v is not None else gen_value(rng, it, 3) for v in vals]
+    full = [v if v is not None else gen_value(rng, it, 3, enc.special) for v in vals]
     if kind == 'bym':
         vw = rng.random() < 0.5
         mask = []
@@ -407,7 +408,7 @@ def gen_array(rng, depth=3, toplen=None, canonical_too=True, enc_kw=None, type_k
     t = gen_type(rng, depth, **(type_kw or {}))
     n = toplen if toplen is not None else rng.choice([0, 1, 2, 3, 3, 4, 5])
     vals = [gen_value(rng, t, 4, special) for _ in range(n)]
-    enc = Enc(rng, **(enc_kw or {}))
+    enc = Enc(rng, **dict(dict(special=special), **(enc_kw or {})))
     lay = encode(enc, t, vals)
     out = dict(type=t, vals=vals, layout=lay, stats=enc.stats)
     if canonical_too:
